@@ -77,7 +77,7 @@ static int dup_ustrings(UChar ***dest, UChar *src[]) {
             FAILURE_HANDLER(soft):
             /* memory allocation failure for one of the member strings */
             while (counter > dest_temp) {
-                free(--counter);
+                free(*(--counter));
             }
 
             free(dest_temp);
